@@ -97,17 +97,51 @@ func runC19(c *fw.Ctx) {
 	}
 
 	// (b) documents
-	tagSets := [][]string{nil, {"@g"}, {"@k", "@g"}}
+	// every list of 0..3 names over the two declared tags, repetitions included (quick: the URL level
+	// takes the lists of length <= 2)
+	tagSets := [][]string{nil}
+	for l := 1; l <= 3; l++ {
+		for code := 0; code < 1<<l; code++ {
+			var t []string
+			for i := 0; i < l; i++ {
+				t = append(t, []string{"@g", "@k"}[(code>>i)&1])
+			}
+			tagSets = append(tagSets, t)
+		}
+	}
+	urlSets := tagSets[:7]
+	if !c.Quick() {
+		urlSets = tagSets
+	}
 	for _, proto := range []string{"http", "rpc"} {
 		for _, paren := range []bool{false, true} {
-			for ui, urlTags := range tagSets {
+			for ui, urlTags := range urlSets {
 				for m1, t1 := range tagSets {
 					for m2, t2 := range tagSets {
 						for _, hoist := range []bool{false, true} {
 							for _, declAfter := range []bool{false, true} {
-								for _, undeclared := range []bool{false, true} {
+								for undeclaredAt := 0; undeclaredAt <= 4; undeclaredAt++ {
+									undeclared := undeclaredAt != 0
 									if hoist && (paren || proto == "rpc") {
 										continue
+									}
+									t1, t2, urlTags := t1, t2, urlTags
+									switch undeclaredAt {
+									case 2: // after the names of the first method's list
+										if t1 == nil {
+											continue
+										}
+										t1 = append(append([]string{}, t1...), "@undeclared")
+									case 3: // before the names of the second method's list
+										if t2 == nil {
+											continue
+										}
+										t2 = append([]string{"@undeclared"}, t2...)
+									case 4: // in the middle of a URL-level list that some method falls back to
+										if len(urlTags) < 2 || (t1 != nil && t2 != nil) {
+											continue
+										}
+										urlTags = append([]string{urlTags[0], "@undeclared"}, urlTags[1:]...)
 									}
 									if !c.Next() {
 										continue
@@ -165,14 +199,14 @@ func runC19(c *fw.Ctx) {
 										exp = append(exp, expI{"http DELETE /other/x", []string{"@other"}})
 									}
 									top := n("PUT", "/top").WithKids(n("200", "any"))
-									if m1 == 1 {
+									if m1%3 == 1 {
 										top.Kids = append(top.Kids, n("Tags", "@k"))
 										exp = append(exp, expI{"http PUT /top", []string{"@k"}})
 									} else {
 										exp = append(exp, expI{"http PUT /top", []string{"@top"}})
 									}
 									nodes = append(nodes, top)
-									if undeclared {
+									if undeclaredAt == 1 {
 										bad := n("PATCH", "/bad").WithKids(n("Tags", "@undeclared"), n("200", "any"))
 										nodes = append(nodes, bad)
 									}
@@ -180,7 +214,7 @@ func runC19(c *fw.Ctx) {
 										nodes = append(nodes, decl...)
 									}
 									text := doc.Text(nodes)
-									label := fmt.Sprintf("proto=%s paren=%v url=%d m1=%d m2=%d hoist=%v after=%v undeclared=%v", proto, paren, ui, m1, m2, hoist, declAfter, undeclared)
+									label := fmt.Sprintf("proto=%s paren=%v url=%d m1=%d m2=%d hoist=%v after=%v undeclared=%d", proto, paren, ui, m1, m2, hoist, declAfter, undeclaredAt)
 									c.Describe(label)
 									c.Distinct(text)
 									o := drv.RunMem("root.jst", text, opt)
@@ -244,13 +278,15 @@ func checkTags(js string, exp []expI, titles map[string]string) string {
 				got = append(got, x.S)
 			}
 		}
-		if strings.Join(got, ",") != strings.Join(e.tags, ",") {
+		// a name written twice in one Tags list: the property says "exactly those tags"; whether the
+		// repetition is kept is not judged, dropping or adding a name is
+		if strings.Join(dedupStrings(got), ",") != strings.Join(dedupStrings(e.tags), ",") {
 			return fmt.Sprintf("interaction-tags: %q carries %v, expected %v", e.id, got, e.tags)
 		}
 		if len(got) == 0 {
 			return fmt.Sprintf("no-tag: %q carries no tag", e.id)
 		}
-		for _, g := range e.tags {
+		for _, g := range dedupStrings(e.tags) {
 			wantTagMembers[g] = append(wantTagMembers[g], e.id)
 		}
 	}
@@ -268,7 +304,7 @@ func checkTags(js string, exp []expI, titles map[string]string) string {
 				}
 			}
 		}
-		a, b := append([]string{}, got...), append([]string{}, members...)
+		a, b := dedupStrings(got), append([]string{}, members...)
 		sort.Strings(a)
 		sort.Strings(b)
 		if strings.Join(a, "|") != strings.Join(b, "|") {
@@ -300,4 +336,16 @@ func checkTags(js string, exp []expI, titles map[string]string) string {
 		}
 	}
 	return ""
+}
+
+func dedupStrings(in []string) []string {
+	seen := map[string]bool{}
+	var out []string
+	for _, x := range in {
+		if !seen[x] {
+			seen[x] = true
+			out = append(out, x)
+		}
+	}
+	return out
 }
